@@ -39,10 +39,52 @@ pub fn source_for(rng: &mut vcommon::rand::rngs::StdRng) -> SourceKind {
     }
 }
 
+/// true iff `validated` is a subsequence of the produced events and all surplus events are
+/// consumed-events of inputs of transactions the production skipped
+fn leftover_events_of_skipped(
+    plan: &chaingen::BlockPlan,
+    produced: &chaingen::Produced,
+    validated: &[chaingen::fuel_core_types::services::executor::Event],
+) -> bool {
+    use chaingen::fuel_core_types::{
+        blockchain::transaction::TransactionExt,
+        services::executor::Event,
+    };
+    let skipped_ids: Vec<_> = produced.skipped.iter().map(|(id, _)| *id).collect();
+    let mut skipped_utxos = Vec::new();
+    let mut skipped_nonces = Vec::new();
+    for p in plan.txs.iter().filter(|p| skipped_ids.contains(&p.id)) {
+        for i in p.tx.inputs().iter() {
+            if let Some(u) = i.utxo_id().filter(|_| i.is_coin()) {
+                skipped_utxos.push(*u);
+            }
+            if let Some(n) = i.nonce() {
+                skipped_nonces.push(*n);
+            }
+        }
+    }
+    let mut vi = 0;
+    for e in &produced.events {
+        if vi < validated.len() && format!("{e:?}") == format!("{:?}", validated[vi]) {
+            vi += 1;
+            continue;
+        }
+        let ok = match e {
+            Event::CoinConsumed(c) => skipped_utxos.contains(&c.utxo_id),
+            Event::MessageConsumed(m) => skipped_nonces.contains(m.nonce()),
+            _ => false,
+        };
+        if !ok {
+            return false;
+        }
+    }
+    vi == validated.len()
+}
+
 pub fn run(args: &Args, report: &Report) {
     let ctx = Ctx::new(args, report);
     let shards = args.by_tier(16, 32);
-    let sessions = args.by_tier(5, 60);
+    let sessions = args.by_tier(40, 480);
     let blocks = args.by_tier(12u32, 16);
     let c = ctx.clone();
     for_each_session(args, report, shards, sessions, move |case, rng| {
@@ -135,11 +177,18 @@ pub fn run(args: &Args, report: &Report) {
                         );
                     }
                     if let Some(d) = first_debug_diff(&produced.events, &a.events) {
-                        c.violation(
-                            &format!("events_differ_production_vs_validation{suffix}"),
-                            format!("production vs validation: {d}"),
-                            replay(),
-                        );
+                        // known (fake-coin mode only): a tx skipped after spend_input_utxos leaves its
+                        // CoinConsumed events behind. Classify exactly: validation events must be a
+                        // subsequence of production events and every extra event must be a CoinConsumed /
+                        // MessageConsumed of an input of a skipped transaction.
+                        let sig = if fake && leftover_events_of_skipped(&plan, &produced, &a.events) {
+                            "events_differ_production_vs_validation forbid_fake_coins=false".to_string()
+                        } else if fake {
+                            "events_differ_production_vs_validation forbid_fake_coins=false other".to_string()
+                        } else {
+                            "events_differ_production_vs_validation".to_string()
+                        };
+                        c.violation(&sig, format!("production vs validation: {d}"), replay());
                     }
                     if !c.st(1) && !c.st(2) && !c.st(3) {
                         if diff_changes(&ac, &bc).is_some()
@@ -171,12 +220,14 @@ pub fn run(args: &Args, report: &Report) {
             }
         }
     });
-    report.require("c01.blocks_validated_identically", args.by_tier(500, 5_000));
-    report.require("c01.nontrivial_blocks", args.by_tier(300, 3_000));
-    report.require("c01.outcome.failed", args.by_tier(100, 1_000));
-    report.require("c01.step.call_store", args.by_tier(100, 1_000));
-    report.require("c01.tx.Create", args.by_tier(50, 500));
-    report.require("c01.blocks_fake_coins", args.by_tier(50, 500));
+    if args.replay.is_none() {
+        report.require("c01.blocks_validated_identically", args.by_tier(500, 5_000));
+        report.require("c01.nontrivial_blocks", args.by_tier(300, 3_000));
+        report.require("c01.outcome.failed", args.by_tier(100, 1_000));
+        report.require("c01.step.call_store", args.by_tier(100, 1_000));
+        report.require("c01.tx.Create", args.by_tier(50, 500));
+        report.require("c01.blocks_fake_coins", args.by_tier(50, 500));
+    }
     report.finish(
         args,
         "exploration",
